@@ -239,4 +239,8 @@ def run(F, rep):
     from engines import rule_visit_all
     rule_visit_all(F, rep, 'C07.Y1', lambda g: g.file.endswith('/importer.cpp'), 3, 'importer.cpp')
 
+    # ------------------------------------------------------------------ XML text is read through the XML API
+    from engines import rule_markup_search
+    rule_markup_search(F, rep, 'C07.X1', lambda g: '/src/' in g.file and not g.file.endswith('/printer.cpp'), 'the library (printer excepted, which writes markup)')
+
 
